@@ -1,117 +1,3 @@
-/-
-  Props/C11.lean — live reconfiguration and diagnostics are safe under traffic (partial by nature: the Go memory
-  model, fairness and network-facing diagnostics are outside the model).
-  Obligations: (1) no data race = lock discipline on facts REGENERATED from the source + soundness of the discipline;
-  (2) no deadlock = acyclic lock order on regenerated edges + soundness; (3) per-setting atomicity = a decision that
-  loads its setting once sees the old or the new value under every schedule; (4) no panic with partial configs is
-  tied by the differential harness (diagnostics after partial SetConfigThreadSafe).
--/
-import CircuitModel.LockLang
-import CircuitModel.Conc.Cfg
-import Generated.LockFacts
-import CircuitProofs.Lemmas.Lock
-namespace CM.Props.C11
-open CM.Lock
-
-/-- THE REGENERATED OBLIGATIONS (facts re-extracted from today's Go source on every run): every non-atomic field of
-    every mutex-owning type is either never written after construction or protected by one common mutex, and the
-    acquired-while-holding relation between mutexes is acyclic -/
-theorem discipline_ok : disciplineOk CM.Generated.lockFacts = true := by decide
-theorem lock_order_ok : lockOrderOk CM.Generated.lockEdges = true := by decide
-
-/-! ### (1) soundness of the discipline -/
-
-/-- a thread, as far as locks go: the mutexes it currently holds -/
-structure Thread where
-  held : List Held
-
-/-- mutual exclusion of the mutexes: if two different threads hold the same mutex, both hold it shared -/
-def Exclusive (ts : List Thread) : Prop :=
-  ∀ (i j : Nat) (ti tj : Thread), ts[i]? = some ti → ts[j]? = some tj → i ≠ j →
-    ∀ h ∈ ti.held, ∀ h' ∈ tj.held, h.lock = h'.lock → h.write = false ∧ h'.write = false
-
-/-- a thread can be at an access only while holding (at least) what the analysis says is definitely held there -/
-def AtAccess (t : Thread) (a : Access) : Prop :=
-  ∀ h ∈ a.held, ∃ h' ∈ t.held, h'.lock = h.lock ∧ (h.write = true → h'.write = true)
-
-/-- NO DATA RACE: under the discipline, two different threads are never simultaneously at conflicting live accesses
-    (at least one of them a write) of the same field -/
-theorem lockset_sound (f : FieldFacts) (hok : fieldOk f = true) (ts : List Thread) (hex : Exclusive ts)
-    (i j : Nat) (ti tj : Thread) (hi : ts[i]? = some ti) (hj : ts[j]? = some tj) (hij : i ≠ j)
-    (a1 a2 : Access) (h1 : a1 ∈ live f) (h2 : a2 ∈ live f) (p1 : AtAccess ti a1) (p2 : AtAccess tj a2)
-    (hconf : a1.write = true ∨ a2.write = true) : False := by
-  unfold fieldOk at hok
-  rw [Bool.or_eq_true] at hok
-  rcases hok with hro | hprot
-  · rw [List.all_eq_true] at hro
-    have r1 := hro a1 h1
-    have r2 := hro a2 h2
-    simp only [Bool.not_eq_true'] at r1 r2
-    rcases hconf with h | h
-    · rw [h] at r1; cases r1
-    · rw [h] at r2; cases r2
-  · rw [List.any_eq_true] at hprot
-    obtain ⟨h, _, hp⟩ := hprot
-    obtain ⟨k1, hk1, hl1, hw1⟩ := protects_mem hp h1
-    obtain ⟨k2, hk2, hl2, hw2⟩ := protects_mem hp h2
-    obtain ⟨k1', hk1', hl1', hw1'⟩ := p1 k1 hk1
-    obtain ⟨k2', hk2', hl2', hw2'⟩ := p2 k2 hk2
-    have hsame : k1'.lock = k2'.lock := by rw [hl1', hl2', hl1, hl2]
-    obtain ⟨e1, e2⟩ := hex i j ti tj hi hj hij k1' hk1' k2' hk2' hsame
-    rcases hconf with hc | hc
-    · rcases hw1 with hw | hw
-      · rw [hw1' hw] at e1; cases e1
-      · rw [hc] at hw; cases hw
-    · rcases hw2 with hw | hw
-      · rw [hw2' hw] at e2; cases e2
-      · rw [hc] at hw; cases hw
-
-/-! ### (2) acyclic lock order ⇒ no deadlock -/
-
-/-- a blocked thread: holds some mutexes, waits for one; every (held, wanted) pair is an acquired-while-holding edge -/
-structure Blocked where
-  holds : List String
-  wants : String
-
-/-- if the checker accepts the edges, there is no deadlock: no non-empty set of blocked threads in which everybody
-    waits for a mutex held by somebody of the set -/
-theorem ordered_locks_no_deadlock (edges : List (String × String)) (hok : lockOrderOk edges = true)
-    (bs : List Blocked) (hne : bs ≠ [])
-    (hedges : ∀ b ∈ bs, ∀ h ∈ b.holds, (h, b.wants) ∈ edges)
-    (hheld : ∀ b ∈ bs, ∃ b' ∈ bs, b.wants ∈ b'.holds) : False := by
-  obtain ⟨b, hb, hmax⟩ :=
-    exists_max (fun b : Blocked => rankOf edges (edges.length + 1) b.wants) bs hne
-  obtain ⟨b', hb', hin⟩ := hheld b hb
-  have hedge := hedges b' hb' b.wants hin
-  have hlt := lockOrderOk_edge hok hedge
-  have hle := hmax b' hb'
-  omega
-
-/-! ### (3) per-setting atomicity -/
-open CM.Conc.Cfg in
-/-- a decision that loads its setting ONCE observes the old or the new value, under every schedule -/
-theorem old_or_new (old new : Int) (sched : List Actor) :
-    (run 1 (init old new) sched).loads = [] ∨ (run 1 (init old new) sched).loads = [old] ∨
-    (run 1 (init old new) sched).loads = [new] := by
-  have hinit : Inv1 old new (init old new) := ⟨Or.inl rfl, rfl, Or.inl rfl⟩
-  exact (inv1_run sched hinit).2.2
-
-open CM.Conc.Cfg in
-/-- hence the throttle decision of a call racing a limit change is the decision under the old or under the new limit -/
-theorem throttle_old_or_new (old new count : Int) (sched : List Actor) (b : Bool)
-    (h : rejectOnce count (run 1 (init old new) sched).loads = some b) :
-    b = decide (old ≥ 0 ∧ count > old) ∨ b = decide (new ≥ 0 ∧ count > new) := by
-  rcases old_or_new old new sched with h0 | h0 | h0
-  · rw [h0] at h; simp [rejectOnce] at h
-  · rw [h0] at h; simp only [rejectOnce, Option.some.injEq] at h; exact Or.inl h.symm
-  · rw [h0] at h; simp only [rejectOnce, Option.some.injEq] at h; exact Or.inr h.symm
-
-open CM.Conc.Cfg in
-/-- the legacy shape (two loads) is NOT atomic: limit 5 → -1 between the loads rejects a first call that both
-    configurations admit (the defect repaired in /repo; reproduced on the real code by the schedule harness) -/
-theorem double_read_witness :
-    rejectTwice 1 (run 2 (init 5 (-1)) [.load, .store, .load]).loads = some true ∧
-    decide ((5 : Int) ≥ 0 ∧ (1 : Int) > 5) = false ∧ decide ((-1 : Int) ≥ 0 ∧ (1 : Int) > -1) = false := by
-  decide
-
-end CM.Props.C11
+/- Props/C11.lean — property C11: all theorems live in namespace CM.Props.C11, split over two files. -/
+import CircuitProofs.Props.C11Base
+import CircuitProofs.Props.C11Mid
